@@ -494,12 +494,13 @@ End Keyset.
 
 (* ------------------------------------------------------------------ *)
 (* the public key of a private key, on serialisations: the private-key
-   message carries the public-key message in field 2                   *)
+   message carries the public-key message in field [pubfield] (2 or 3
+   depending on the type; read from the descriptor by the harness)      *)
 (* ------------------------------------------------------------------ *)
 Definition mat_private : N := 2.
 Definition mat_public : N := 3.
-Definition public_of (T : ktype) (pub_url : bytes) (k : gkey) : option (schema * gkey) :=
-  match get_field (kt_schema T) (gk_fields k) 2 with
+Definition public_of (T : ktype) (pubfield : N) (pub_url : bytes) (k : gkey) : option (schema * gkey) :=
+  match get_field (kt_schema T) (gk_fields k) pubfield with
   | Some (TMsg ps, VMsg (Some pm)) => Some (ps, mkGkey pub_url mat_public (gk_variant k) (gk_id k) pm)
   | _ => None
   end.
@@ -517,16 +518,41 @@ Definition dpar (reg : bytes -> option ktype) (s : kser) : option dkey :=
   | Some T => match parse_key T s with Some g => Some (DK T g) | None => None end
   | None => Some (DFallback s)
   end.
-Definition dpub (reg : bytes -> option ktype) (pub_url : bytes -> option bytes) (k : dkey) : option dkey :=
+Definition dpub (reg : bytes -> option ktype) (pub_url : bytes -> option (bytes * N)) (k : dkey) : option dkey :=
   match k with
   | DK T g =>
       match pub_url (gk_url g) with
-      | Some pu =>
-          match public_of T pu g, reg pu with
+      | Some (pu, pf) =>
+          match public_of T pf pu g, reg pu with
           | Some (_, pg), Some TP => Some (DK TP pg)
           | _, _ => None
           end
       | None => None
       end
   | DFallback _ => None
+  end.
+
+(* ------------------------------------------------------------------ *)
+(* which types re-encode big integers (type URL -> normalisation)      *)
+(* ------------------------------------------------------------------ *)
+Require Import Coq.Strings.String Coq.Strings.Ascii.
+Definition bytes_of_string (s : string) : bytes := List.map N_of_ascii (list_ascii_of_string s).
+Definition tink_url (name : string) : bytes :=
+  bytes_of_string (String.append "type.googleapis.com/google.crypto.tink." name).
+Definition norm_table : list (bytes * norm_kind) := Eval vm_compute in
+  [ (tink_url "EcdsaPublicKey", NKEcdsaPub); (tink_url "EcdsaPrivateKey", NKEcdsaPriv);
+    (tink_url "JwtEcdsaPublicKey", NKJwtEcdsaPub); (tink_url "JwtEcdsaPrivateKey", NKJwtEcdsaPriv);
+    (tink_url "EciesAeadHkdfPublicKey", NKEciesPub); (tink_url "EciesAeadHkdfPrivateKey", NKEciesPriv);
+    (tink_url "RsaSsaPkcs1PublicKey", NKRsaPub); (tink_url "RsaSsaPkcs1PrivateKey", NKRsaPriv);
+    (tink_url "RsaSsaPssPublicKey", NKRsaPub); (tink_url "RsaSsaPssPrivateKey", NKRsaPriv);
+    (tink_url "JwtRsaSsaPkcs1PublicKey", NKRsaPub); (tink_url "JwtRsaSsaPkcs1PrivateKey", NKRsaPriv);
+    (tink_url "JwtRsaSsaPssPublicKey", NKRsaPub); (tink_url "JwtRsaSsaPssPrivateKey", NKRsaPriv) ].
+Definition norm_kind_of (url : bytes) : norm_kind :=
+  match lookup_bytes norm_table url with Some k => k | None => NKNone end.
+
+(* the type of a registered URL, given the schema of its key message *)
+Definition ktype_of (url : bytes) (s : schema) : option ktype :=
+  match prefix_kind_of url with
+  | Some pk => Some (mkKtype s pk (norm_kind_of url))
+  | None => None
   end.
